@@ -64,7 +64,7 @@ func init() {
 		return out
 	})
 	DeclareUF("lower", []Sort{SStr}, SStr, func(a *Term) []*Term {
-		return []*Term{Eq(Len(a), Len(a.Args[0])), isLowerT(a)}
+		return []*Term{Eq(Len(a), Len(a.Args[0])), isLowerT(a), Implies(isLowerT(a.Args[0]), Eq(a, a.Args[0]))}
 	})
 	DeclareUF("rnd", []Sort{SInt, SInt, SInt}, SInt, func(a *Term) []*Term {
 		return []*Term{Implies(Lt(MkI(0), a.Args[2]), And(Le(MkI(0), a), Lt(a, a.Args[2])))}
